@@ -336,6 +336,45 @@ def gen_plan(seed, tier, idx):
         ops.append({"op": "scan", "h": hub, "interval": [0, scan_n]})
         for vo in ("node", "ext_keys", "str", "pfp"):
             ops.append({"op": vo, "h": "c0.keep"})
+    # OBJECT LIFETIME / COLLECTOR SCHEDULE: a node is obtained from a wallet object that is dropped at once (the chained
+    # expression `Wallet(...).by_path(p)`), the cyclic collector runs at a seeded point (automatic collection is off
+    # during a run, so the plan alone decides when unreachable wallets, roots and intermediate nodes disappear), and
+    # the surviving node is asked for its path, fingerprints and extended keys later. Drawn from a second PRNG so that
+    # the rest of the plan is the same as without these operations.
+    rng2 = random.Random((seed * 0x9E3779B1 + 0x51F15E) % 2 ** 64)
+    if not scan_n and rng2.random() < 0.55:
+        for c, ops in enumerate(clients):
+            if rng2.random() < (0.8 if c == 0 else 0.4):
+                r = rng2.choice(roots)
+                private = libapi.is_private(libapi.ROOTS[r])
+                depth = rng2.randint(2, 5)
+                if private and rng2.random() < 0.6:
+                    spec_r = libapi.ROOTS[r]
+                    coin = (1 if (spec_r.get("testnet") or spec_r.get("key", "x")[0] in "tuv") else 0) + HARD
+                    path = [rng2.choice([44, 49, 84]) + HARD, coin, rng2.choice([0, 1]) + HARD, rng2.choice([0, 1]),
+                            rng2.choice(NORMAL)][:depth]
+                else:
+                    path = [rng2.choice(NORMAL) if (not private or rng2.random() < 0.5) else rng2.choice(IDX)
+                            for _ in range(depth)]
+                out = "c%d.o" % c
+                op = {"op": "orphan", "root": r, "via": rng2.choice(["by_path", "derive_path", "ckd_chain", "child_of_by_path"]),
+                      "s": fmt_path(path), "path": path, "out": out, "gc": rng2.random() < 0.6}
+                g._add(out, r, path, private, "c%d" % c)
+                at = rng2.randint(0, len(ops))
+                later = [{"op": k} for k in rng2.sample(["node", "str", "pfp", "ext_keys", "fingerprint", "addr"], 3)]
+                for o in later:
+                    o["h"] = out
+                    if o["op"] == "addr":
+                        o["fn"] = rng2.choice(libapi.ADDR_FNS)
+                ops[at:at] = [op, later[0]]
+                if rng2.random() < 0.7:
+                    ops.insert(rng2.randint(at + 2, len(ops)), {"op": "gc"})
+                ops.append(later[1])
+                if len(path) < MAX_DEPTH and rng2.random() < 0.5:
+                    i = rng2.choice(NORMAL)
+                    ops.append({"op": "ckd", "h": out, "i": i, "out": out + "c"})
+                    g._add(out + "c", r, path + [i], private, "c%d" % c)
+                ops.append(later[2])
     for c, ops in enumerate(clients):
         for j, op in enumerate(ops):
             op["id"] = "c%d#%d" % (c, j)
@@ -448,6 +487,24 @@ class _Exec:
             self.rec(who, j, {"root": self.plan["roots"][root], "op": "by_path", "s": op["s"]}, obs)
             # concatenation clause: by_path(s) must equal derive_path(list) from the root
             self.rec(who, j, self.q(root, op["path"], op="node"), obs)
+        elif kind == "gc":
+            import gc
+            self.stats["collector_runs"] = self.stats.get("collector_runs", 0) + 1
+            self.stats["collected_objects"] = self.stats.get("collected_objects", 0) + gc.collect()
+        elif kind == "orphan":
+            import gc
+            root = op["root"]
+            try:
+                n = _orphan_node(self.plan["roots"][root], op)
+                if op.get("gc"):
+                    self.stats["collector_runs"] = self.stats.get("collector_runs", 0) + 1
+                    self.stats["collected_objects"] = self.stats.get("collected_objects", 0) + gc.collect()
+                obs = libapi.canon_node(n)
+                self.handles[op["out"]] = (root, list(op["path"]), n)
+                self.stats["orphans"] = self.stats.get("orphans", 0) + 1
+            except Exception as e:
+                obs = libapi.exc_obs(e)
+            self.rec(who, j, self.q(root, op["path"], op="node"), obs)
         elif kind == "rebuild":
             root = op["root"]
             w2 = libapi.build_wallet(self.plan["roots"][root])
@@ -544,6 +601,23 @@ class _Exec:
             raise core.HarnessError("unknown op kind %r" % kind)
 
 
+def _orphan_node(spec, op):
+    """A node whose wallet, root and intermediate ancestors are referenced by nobody but the library's own links
+    once this frame returns."""
+    w = libapi.build_wallet(spec)
+    via = op["via"]
+    if via == "by_path":
+        return w.by_path(op["s"])
+    if via == "derive_path":
+        return w.master.derive_path(index_list=list(op["path"]))
+    if via == "child_of_by_path":
+        return w.by_path(fmt_path(op["path"][:-1])).ckd(index=op["path"][-1])
+    n = w.master
+    for i in op["path"]:
+        n = n.ckd(index=i)
+    return n
+
+
 def _lib_files():
     import btc_hd_wallet
     d = os.path.dirname(btc_hd_wallet.__file__)
@@ -554,6 +628,8 @@ def _run_child(plan):
     """Executes one simulated run; returns records + schedule log + stats."""
     import sys
     sys.setswitchinterval(1000.0)   # no involuntary GIL hand-over matters: only one thread is ever runnable
+    import gc
+    gc.disable()                    # the cyclic collector runs when the plan says so (ops `gc` / `orphan`), never in between
     cfg = plan["config"]
     ex = _Exec(plan)
     ex.setup_roots()
@@ -608,6 +684,8 @@ def _run_child(plan):
         "handles_used_by_2plus_clients": shared, "step_cap_hit": int(b.cap_hit),
         "probes": dict(b.probes), "pairs": sorted(b.pairs),
         "gen_resumed_after_foreign_derivation": ex.stats.get("gen_resumed_after_foreign_derivation", 0),
+        "orphans": ex.stats.get("orphans", 0), "collector_runs": ex.stats.get("collector_runs", 0),
+        "collected_objects": ex.stats.get("collected_objects", 0),
         "config": {cfg["config"]: 1}, "granularity": {cfg["granularity"]: 1},
         "policy": {plan["sched"].get("policy", "literal"): 1},
         "interleaving": [core.digest(b.switch_sites)] if switches else [],
@@ -838,6 +916,9 @@ class ThreadsSim(Simulator):
                 "two_clients_inside_ckd_of_same_parent":
                     st.get("probes", {}).get("two_clients_inside_ckd_of_same_parent", 0),
                 "history_before_request(ops)": st.get("ops_total", 0),
+                "node_outlives_its_wallet_and_ancestors": st.get("orphans", 0),
+                "cyclic_collector_run_at_seeded_point": st.get("collector_runs", 0),
+                "objects_freed_by_those_collector_runs": st.get("collected_objects", 0),
             },
             "distinct_interleavings": st.get("interleaving#distinct", 0),
             "distinct_op_pairs_overlapped": st.get("pairs#distinct", 0),
@@ -856,6 +937,8 @@ class ThreadsSim(Simulator):
             out.append("no context switch at all")
         if st.get("gen_resumed_after_foreign_derivation", 0) == 0:
             out.append("no generator was resumed after a foreign derivation on its node")
+        if st.get("orphans", 0) == 0 or st.get("collector_runs", 0) == 0:
+            out.append("no node outlived its wallet / the collector never ran at a seeded point")
         return out
 
     def real_components(self, prop):
